@@ -47,7 +47,7 @@ MANIFEST = {
     "technique": "Lean 4 theorems over an executable model of the observation classes and of their construction from the scenario; model tied by regenerated tables and a differential rig",
     "design_ref": "5/C02",
 }
-MODULES = ["PrimaiteModel.Props.C02", "PrimaiteModel.Props.C02Cfg"]
+MODULES = ["PrimaiteModel.Props.C02", "PrimaiteModel.Props.C02Cfg", "PrimaiteModel.Props.C02Flat"]
 EXE = "drv_c02"
 
 
@@ -263,6 +263,8 @@ def check_case(ctx: Ctx, name: str, case: dict, model: List[str]) -> bool:
         return False
     ctx.count("component:construction-" + impl[CFG_AT])
     if impl[CFG_AT] == "rejected":
+        if "threshold" in str(case.get("rejected", "")):
+            ctx.count("component:construction-rejected:thresholds-not-strictly-ascending (both sides)")
         return True
     # the object the model builds from the scenario's words is the object the implementation built
     if impl[SHOW_AT] != model[SHOW_AT]:
